@@ -87,10 +87,10 @@ def probe_strings(recs, d, rng):
 
 def ask(c, kind, q):
     if kind == "c":
-        return repr((call(c.expand, q), call(c.expand_all, q), call(c.standardize_curie, q), call(c.is_curie, q)))
+        return probe.okey((call(c.expand, q), call(c.expand_all, q), call(c.standardize_curie, q), call(c.is_curie, q)))
     if kind == "u":
-        return repr((call(c.compress, q), call(c.parse_uri, q, return_none=True), call(c.standardize_uri, q)))
-    return repr((call(c.standardize_prefix, q), call(c.get_record, q)[0]))
+        return probe.okey((call(c.compress, q), call(c.parse_uri, q, return_none=True), call(c.standardize_uri, q)))
+    return probe.okey((call(c.standardize_prefix, q), call(c.get_record, q)[0]))
 
 
 def run_case(ctx, g, rng):
